@@ -2,7 +2,7 @@
 from engine.qb import (AnalysisBroken, abstract_run, estr, unwrap, cval, walk, last_field, fields_of, callee_of,
                        mentions_var, atoms_of, root_var)
 from engine.bounds import Analysis, Lin, State
-from rules.common import field_is, has_call, derives, value_sources, shared_store, is_marker_get
+from rules.common import field_is, has_call, derives, value_sources, shared_store, is_marker_get, macro_named
 from rules import c01, c07, c13, c14, c15
 
 UNITS = ['lib/ringbuffer.c', 'lib/log_blackbox.c', 'lib/log_format.c', 'lib/log.c']
@@ -17,8 +17,10 @@ RULES = {
     'R2': 'the writer-side reclaim only consumes a published chunk (C01.R2 for _rb_chunk_reclaim)',
     'R3': 'reserve >= commit: every copy of _blackbox_vlogger lies inside the reserved chunk and the committed length is at most the reserved length',
     'R4': 'writer/reader record layout agree (C15.R5)',
+    'R6': 'an overwrite ring that the writer has just emptied is writable: at write_pt == read_pt the "full" verdict that depends on the wake-up count is not reachable in overwrite mode, or the writer-side reclaim takes the count of the chunk it drops back (timedwait/reclaim callback in the make-room loop)',
+    'R5': 'ring index arithmetic the overwrite path relies on (= C07.R2 chunk_step: skips the header, rounds up, result in [0, word_size - 1]; C07.R6 space_free: three index cases, an empty ring offers word_size)',
 }
-FLOORS = {'R1': 5, 'R2': 3, 'R3': 9, 'R4': 2}
+FLOORS = {'R1': 5, 'R2': 3, 'R3': 9, 'R4': 2, 'R5': 8, 'R6': 1}
 
 
 def run(ctx):
@@ -32,11 +34,19 @@ def run(ctx):
             r['rule'] = 'R2'
             ctx.results.append(r)
     r3(ctx)
+    r6(ctx)
     sub = type(ctx)(prog, ctx.prop, ctx.tier, ctx.depth)
     c15.r5(sub)
     for r in sub.results:
         if r['key'].startswith('record:'):
             r['rule'] = 'R4'
+            ctx.results.append(r)
+    sub = type(ctx)(prog, ctx.prop, ctx.tier, ctx.depth)
+    c07.r2(sub)
+    c07.r6(sub)
+    for r in sub.results:
+        if r['key'].startswith('step-') or r['key'].startswith('space_free:') or r['key'] == 'length-at-offset-0':
+            r['rule'] = 'R5'
             ctx.results.append(r)
 
 
@@ -173,3 +183,43 @@ def r3(ctx):
     commits = [k for (_e, k, _t, _o) in an.obligations if k == 'commit<=reserved']
     if not commits:
         raise AnalysisBroken('_blackbox_vlogger: commit not analysed')
+
+
+def r6(ctx):
+    """the count consulted at write_pt == read_pt is posted by every commit but, in overwrite mode, not taken back when the writer
+    drops a chunk: after the make-room loop has emptied the ring the count is > 0 and the ring would look full for ever"""
+    prog = ctx.prog
+    sf = prog.fn('qb_rb_space_free')
+    # the stores of "no space" (constant 0) made under a q_len-dependent condition
+    full = []
+    for st in sf.events('STORE'):
+        if unwrap(st.lhs).get('k') == 'var' and st.d['op'] == '=' and cval(unwrap(st.rhs)) == 0:
+            gs = [a for (a, _e) in sf.guards(st)]
+            if any(callee_of(unwrap(a.l)) == 'qb_rb_notifier::q_len_fn' or has_call(a.l, 'qb_rb_notifier::q_len_fn') for a in gs):
+                full.append(st)
+    al = prog.fn('qb_rb_chunk_alloc')
+    loops = al.natural_loops()
+    rec = list(al.calls('_rb_chunk_reclaim'))
+    body = set()
+    for h, b in loops.items():
+        if rec and rec[0].blk in b:
+            body |= b
+    takes_back = any(ev.kind == 'CALL' and ev.callee in ('qb_rb_notifier::timedwait_fn', 'qb_rb_notifier::reclaim_fn') and ev.blk in body for ev in al.events('CALL'))
+    if not takes_back:
+        # or inside the writer-side reclaim itself, with a callback that is actually installed for semaphore rings
+        rc = prog.fn('_rb_chunk_reclaim')
+        installed = prog.slots().get('qb_rb_notifier::reclaim_fn', set())
+        takes_back = bool(installed) and any(ev.callee == 'qb_rb_notifier::reclaim_fn' for ev in rc.events('CALL'))
+    if not full:
+        ctx.ok('R6', 'emptied-overwrite-ring-is-writable', sf, 'qb_rb_space_free has no count-dependent "full" verdict')
+        return
+
+    def not_overwrite(a, fb):
+        # (flags & OVERWRITE) == 0
+        l = unwrap(a.l)
+        return a.op == '==' and a.rc == 0 and l.get('k') == 'bin' and l['op'] == '&' and field_is(l['l'], 'flags') and macro_named(l['r'], 'QB_RB_FLAG_OVERWRITE')
+    guarded = all(sf.uncut_path(st, not_overwrite) is None for st in full)
+    ctx.check('R6', 'emptied-overwrite-ring-is-writable', guarded or takes_back, full[0],
+              'the count-dependent "full" verdict is %s' % ('not reachable in overwrite mode' if guarded else 'kept exact: the make-room loop takes the dropped chunk\'s count back'),
+              'at write_pt == read_pt qb_rb_space_free reports "full" whenever the wake-up count is > 0, but the overwrite writer drops chunks without taking their count back: '
+              'once it has emptied the ring (a chunk larger than half the ring), every later write fails with EINVAL and the ring stays empty')
